@@ -56,13 +56,13 @@ func ownerOf(fa *ssa.FieldAddr) *types.TypeName {
 }
 
 var c12OwnershipTransfer = map[string]string{
-	"secs2.DecodeOwned":                      "documented: ownership of data transfers to the item",
-	"secs2.DecodeOwnedFrame":                 "documented: internal transport entry over an owned body",
-	"hsms.DecodeOwnedHSMSPayload":            "documented: ownership of payload transfers to the message",
-	"(*hsms.connection).DeliverOwnedFrame":   "documented: the transport hands over a frame it will not touch again",
-	"internal/wire.AdoptBody":                "documented: wraps already-owned body bytes",
-	"internal/wire.ChunkOf":                  "documented: wraps an already-owned block body",
-	"internal/framecodec.AdoptSECS2Body":     "documented: capability token over owned bytes",
+	"secs2.DecodeOwned":                          "documented: ownership of data transfers to the item",
+	"secs2.DecodeOwnedFrame":                     "documented: internal transport entry over an owned body",
+	"hsms.DecodeOwnedHSMSPayload":                "documented: ownership of payload transfers to the message",
+	"(*hsms.connection).DeliverOwnedFrame":       "documented: the transport hands over a frame it will not touch again",
+	"internal/wire.AdoptBody":                    "documented: wraps already-owned body bytes",
+	"internal/wire.ChunkOf":                      "documented: wraps an already-owned block body",
+	"internal/framecodec.AdoptSECS2Body":         "documented: capability token over owned bytes",
 	"(internal/framecodec.OwnedSECS2Body).Bytes": "documented: capability token accessor",
 }
 
@@ -248,11 +248,11 @@ func shortRender(v ssa.Value) string {
 
 // zero-copy bridge functions that hand out internal storage by design, with the callers allowed.
 var c12Bridge = map[string][]string{
-	"(internal/wire.rawFrameBody).Buffers": {"hsms.buildFrameBuffers"},
-	"(*internal/wire.treeBody).Buffers":    {"hsms.buildFrameBuffers"},
-	"internal/wire.OwnedBytes":             {"(*hsms.DataMessage).decode"},
-	"(*internal/wire.treeBody).encoded":    {"(*internal/wire.treeBody).AppendTo", "(*internal/wire.treeBody).Buffers", "(*internal/wire.treeBody).Chunk"},
-	"(*secs2.baseItem).raw":                nil, // callers checked: used only to re-emit through append
+	"(internal/wire.rawFrameBody).Buffers":       {"hsms.buildFrameBuffers"},
+	"(*internal/wire.treeBody).Buffers":          {"hsms.buildFrameBuffers"},
+	"internal/wire.OwnedBytes":                   {"(*hsms.DataMessage).decode"},
+	"(*internal/wire.treeBody).encoded":          {"(*internal/wire.treeBody).AppendTo", "(*internal/wire.treeBody).Buffers", "(*internal/wire.treeBody).Chunk"},
+	"(*secs2.baseItem).raw":                      nil, // callers checked: used only to re-emit through append
 	"(internal/framecodec.OwnedSECS2Body).Bytes": {"secs2.DecodeOwnedFrame"},
 }
 
